@@ -83,6 +83,11 @@ where
 
     let mut r#match = None;
     let mut len = 0;
+    let start = dst.len();
+
+    // The part of the field that was read from previous buffers. A multibyte character can span
+    // two buffers, so such a field is validated as a whole.
+    let mut pending = Vec::new();
 
     loop {
         let src = reader.fill_buf()?;
@@ -99,21 +104,34 @@ where
             None => (src, src.len()),
         };
 
-        let s = str::from_utf8(buf).map_err(|e| io::Error::new(io::ErrorKind::InvalidData, e))?;
-        dst.push_str(s);
+        if r#match.is_some() && pending.is_empty() {
+            push_utf8(dst, buf)?;
+        } else {
+            pending.extend_from_slice(buf);
+        }
 
         len += n;
 
         reader.consume(n);
     }
 
+    if !pending.is_empty() {
+        push_utf8(dst, &pending)?;
+    }
+
     let is_eol = matches!(r#match, Some(LINE_FEED));
 
-    if is_eol && dst.ends_with(CARRIAGE_RETURN) {
+    if is_eol && dst[start..].ends_with(CARRIAGE_RETURN) {
         dst.pop();
     }
 
     Ok((len, is_eol))
+}
+
+fn push_utf8(dst: &mut String, src: &[u8]) -> io::Result<()> {
+    let s = str::from_utf8(src).map_err(|e| io::Error::new(io::ErrorKind::InvalidData, e))?;
+    dst.push_str(s);
+    Ok(())
 }
 
 #[cfg(test)]
